@@ -557,7 +557,7 @@ func (vc *FuncVC) invokeMethod(st *State, fr *Frame, instr ssa.Instruction, cc *
 		return vc.ctxMethod(st, recv, m, site)
 	}
 	if nt, ok := it.(*types.Named); ok && nt.Obj().Pkg() != nil && nt.Obj().Pkg().Path() == "reflect" && nt.Obj().Name() == "Type" {
-		if res, ok := vc.reflectTypeMethod(st, instr, recv, m); ok {
+		if res, ok := vc.reflectTypeMethod(st, instr, recv, m, args); ok {
 			return res
 		}
 	}
